@@ -711,7 +711,11 @@ impl<'a, P: ProcessRun> PubPoint<'a, P> {
                 )? {
                     Ok(res) => return Ok(res),
                     Err(mut this) => {
+                        // The update may have been abandoned half-way
+                        // through. Drop whatever it has collected before
+                        // switching to the stored objects.
                         this.metrics = Default::default();
+                        this.processor.restart()?;
                         return Ok(this.process_stored(store, metrics)?)
                     }
                 }
